@@ -77,9 +77,9 @@ def space(level):
         for a, d in itertools.product((None, ("root", "a", X, False), ("D", "a", X, False), ("S", "a", X, False)), ("d", "e")):
             add(_mk(a, None, d, None, sub=True))
     else:
-        for a, b, d in itertools.product(A_FULL, B_FULL, D_ALL):
+        for a, b, d in itertools.product(A_FULL, B_SMALL + (("D", "b", Y, False),), D_ALL):
             add(_mk(a, b, d, None))
-        for a, d, k in itertools.product(A_FULL, D_ALL, ("file", "directory")):
+        for a, d, k in itertools.product(A_SMALL, (None, "d"), ("file", "directory")):
             add(_mk(a, None, d, k))
         for a, b, d in itertools.product(A_SMALL + (("S", "a", X, False), ("S", "a", Y, False)),
                                          (None, ("root", "b", Y, False)), ("d", "e")):
